@@ -160,7 +160,7 @@ func writeEvidence(cfg *supConfig, p props.Property, agg *aggregate, wall float6
 		"nontrivial_runs":         agg.NonTrivial,
 		"runs_per_hour":           int(float64(agg.Runs) / hours),
 		"seeds_per_hour":          int(float64(agg.Runs) / hours),
-		"simulated_time_s":        float64(agg.VirtualNs) / 1e9,
+		"simulated_time_s":        agg.VirtualS,
 		"faults_fired":            faults,
 		"other_counters":          other,
 		"rare_condition_probes":   agg.Probes,
